@@ -1002,6 +1002,28 @@ func srcSwitches(repo string, b *strings.Builder) bool {
 	}
 	fmt.Fprintf(b, "(* the metadata coder copies strings: metadataToConfig stores every value unchanged, configToMetadata takes string members only *)\nDefinition src_metadata_strings_only := %v.\n", metaStrings)
 	fmt.Fprintf(b, "(* SetHosts stores its argument for a known cluster: no other branch, no early return *)\nDefinition src_sethosts_stores_argument := %v.\n", setHostsExact)
+	// transferConfig hands out the marshal output as it is: its last statement is `return json.MarshalIndent(...)` (or
+	// json.Marshal) and there is no other return of bytes
+	transferPlain := false
+	if f2 != nil {
+		if tc := FindFunc(f2, "", "transferConfig"); tc != nil && len(tc.Body.List) > 0 {
+			if rs, isRet := tc.Body.List[len(tc.Body.List)-1].(*ast.ReturnStmt); isRet && len(rs.Results) == 1 {
+				if c, isCall := rs.Results[0].(*ast.CallExpr); isCall {
+					fn := exprStr(c.Fun)
+					transferPlain = fn == "json.MarshalIndent" || fn == "json.Marshal"
+				}
+			}
+			if transferPlain { // any other return must be an error return (nil bytes)
+				ast.Inspect(tc.Body, func(n ast.Node) bool {
+					if rs, isRet := n.(*ast.ReturnStmt); isRet && len(rs.Results) == 2 && exprStr(rs.Results[0]) != "nil" {
+						transferPlain = false
+					}
+					return true
+				})
+			}
+		}
+	}
+	fmt.Fprintf(b, "(* transferConfig returns the output of json.MarshalIndent as it is (no processing of the text) *)\nDefinition src_transfer_returns_marshal := %v.\n", transferPlain)
 	fmt.Fprintf(b, "Definition src_redact_copies_servers := %v.\n", copiesServers && copiesListeners)
 	fmt.Fprintf(b, "Definition src_redact_handles_extends := %v.\n", handlesExt)
 	fmt.Fprintf(b, "Definition src_transfer_copies_servers := %v.\n", transferCopies)
